@@ -2,6 +2,7 @@
 use mc_core::Ctx;
 
 mod c45;
+mod mock;
 mod c46;
 mod c47;
 
